@@ -300,6 +300,11 @@ class Arith:
             return v.as_long()
         return fr(Fraction(v.numerator_as_long(), v.denominator_as_long()))
 
+    def _tree_has_zero(self, tree):
+        if tree[0] == "leaf":
+            return tree[1] == 0
+        return self._tree_has_zero(tree[2]) or self._tree_has_zero(tree[3])
+
     def _map_tree(self, tree, fn):
         if tree[0] == "leaf":
             return fn(tree[1])
@@ -508,7 +513,7 @@ class Arith:
                 return self._c(Fraction(a) / Fraction(b))
             return to_z3(Fraction(1) / Fraction(b)) * to_real(a)
         tb = self.const_tree(b)
-        if tb is not None:
+        if tb is not None and not self._tree_has_zero(tb):
             return self._map_tree(tb, lambda k: self.div(a, k))
         if not is_sym(a) and a == 0:
             return 0
